@@ -79,7 +79,7 @@ Ranged(f, inrange(_)) ==                       \* the three ranged float kinds
 KindVerdict(kind, f, mixed, hasKids) ==
   IF ~f.wellformed THEN "UNSPEC" ELSE      \* a str with a lone surrogate is not a Unicode string: outside the quantifier
   CASE kind = "anyContent"      -> "ACCEPT"
-    [] kind = "emptyContent"    -> Tri(f.none, ~f.none /\ ~f.empty /\ ~f.blank)        \* "" and blank text: unspecified
+    [] kind = "emptyContent"    -> Tri(f.none, ~f.none /\ ~f.empty)                    \* "": unspecified; space-only text is text (the importer keeps it): rejected
     [] kind = "nonEmptyContent" -> IF f.none \/ f.empty THEN (IF mixed /\ hasKids THEN "ACCEPT" ELSE "REJECT")
                                    ELSE IF f.blank THEN "UNSPEC" ELSE "ACCEPT"
     [] kind = "strContent"      -> IF f.wellformed THEN "ACCEPT" ELSE "UNSPEC"
